@@ -52,6 +52,17 @@ def run(cmd, cwd=None, extra_env=None, timeout=None, capture=True):
 def build(cfg, work):
     """Instrument /repo's current tree, assemble the overlay, build the test binary."""
     t0 = time.time()
+    if cfg.get("engine_n"):
+        # whole-system environment (DESIGN.md sect. 3.6/3.7): mode-N instrumentation of the peers, simulated
+        # network, patched quic-go copy and net/http overlay; the check's own harness and test package are kept
+        import vcheck_n
+        ncfg = vcheck_n.n_config(work + "-prep")
+        merged = dict(ncfg)
+        merged.update({k: v for k, v in cfg.items() if k not in ("instrument", "sim", "harness")})
+        merged["sim"] = sorted(set(ncfg["sim"]) | set(cfg.get("sim", [])) | {"simwork", "simrt"})
+        merged["harness"] = cfg.get("harness", [])
+        merged["instrument"] = ncfg["instrument"] + cfg.get("instrument", [])
+        cfg = merged
     shutil.rmtree(work, ignore_errors=True)
     os.makedirs(work)
     replace = {}
